@@ -370,6 +370,55 @@ func r064(c *an.Ctx) {
 		return
 	}
 	name := "(*pkg/masks.ResponseFilter).Validate"
+	// a hand-written path walker instead of FieldMask.IsValid: wherever it descends through a field's message
+	// type it must stop at repeated AND map fields (a path cannot continue below either)
+	usesIsValid := len(an.CallsIn(fn, func(s string) bool { return strings.HasSuffix(s, "fieldmaskpb.FieldMask).IsValid") })) > 0
+	if !usesIsValid {
+		seen := map[*ssa.Function]bool{}
+		var walkers []*ssa.Function
+		var visit func(f *ssa.Function, depth int)
+		visit = func(f *ssa.Function, depth int) {
+			if f == nil || seen[f] || depth > 3 || len(f.Blocks) == 0 {
+				return
+			}
+			seen[f] = true
+			walkers = append(walkers, f)
+			an.Instrs(f, func(in ssa.Instruction) {
+				if call, ok := in.(ssa.CallInstruction); ok {
+					if cal := call.Common().StaticCallee(); cal != nil && cal.Package() == fn.Package() {
+						visit(cal, depth+1)
+					}
+				}
+			})
+		}
+		visit(fn, 0)
+		found := false
+		for _, f := range walkers {
+			methods := map[string]bool{}
+			an.Instrs(f, func(in ssa.Instruction) {
+				if call, ok := in.(*ssa.Call); ok && call.Call.IsInvoke() {
+					methods[call.Call.Method.Name()] = true
+				}
+			})
+			if !methods["Message"] {
+				continue
+			}
+			found = true
+			c.Check(methods["IsList"] && methods["IsMap"], rule, name+"|a path walker stops at repeated and map fields", f.Pos(), an.FuncName(f),
+				an.FuncName(f)+" descends through FieldDescriptor.Message() without testing both IsList() and IsMap(): a read mask path that continues below a map (or repeated) field is accepted as valid, and the filter then panics or projects nonsense instead of the request being answered with InvalidArgument")
+		}
+		if found {
+			// the verdict of the walker decides; the status code is checked on the returns below
+			okCode := false
+			for _, r := range an.Returns(fn) {
+				if cd, isSt := statusCodeOf(c, r.Results[0]); isSt && cd == an.CodeInvalidArgument {
+					okCode = true
+				}
+			}
+			c.Check(okCode, rule, name+"|invalid mask is InvalidArgument", fn.Pos(), "", "a read mask with unknown paths is not reported as codes.InvalidArgument")
+			return
+		}
+	}
 	names := map[ssa.Value]string{fn.Params[0]: "r", fn.Params[1]: "msg"}
 	leaves := an.DecisionTree(fn, an.DTConfig{Names: names})
 	c.Count("table_rows", len(leaves))
